@@ -1296,6 +1296,8 @@ def m_fold(ip, args, kwargs):
     else:
         if c < 0 or c > 8:
             raise Unsupported('fold bound %s' % upto)
+        if c > 0 and ctx.check(base + c - 1 < 0) != z3.unsat:
+            raise Unsupported('fold bound %s is not known to be positive: cannot unfold' % upto)
         tcur = base
     if base is None:
         acc = init
